@@ -660,7 +660,7 @@ func FindSequencesInList(paths []string, opts ...FileOption) (FileSequences, err
 		var item fileItem
 		item.DirName, item.FileName = filepath.Split(path)
 
-		if !strings.HasSuffix(item.DirName, sep) {
+		if item.DirName != "" && !strings.HasSuffix(item.DirName, sep) {
 			item.DirName += sep
 		}
 
@@ -726,7 +726,6 @@ func findSequencesInList(paths []*fileItem, opts *findSeqOptions) (FileSequences
 	}
 
 	var (
-		buf      strings.Builder
 		seqCount int
 		dirName  string
 		baseName string
@@ -780,25 +779,13 @@ func findSequencesInList(paths []*fileItem, opts *findSeqOptions) (FileSequences
 
 			if !ok {
 				if singleFiles {
-					buf.WriteString(dirName)
-					buf.WriteString(item.FileName)
-
-					fs, err := NewFileSequencePad(buf.String(), padStyle)
-					if err != nil {
-						return nil, err
+					if len(match) == 0 {
+						// Not even a file extension could be found
+						baseName = item.FileName
 					}
-					// Preserve the parsed base/frame/ext
-					fs.basename = baseName
-					fs.ext = ext
-					if frameStr == "" {
-						fs.SetFrameSet(nil)
-						fs.SetPadding("")
-					} else {
-						fs.SetFrameRange(frameStr)
-					}
-					files = append(files, fs)
-
-					buf.Reset()
+					// Use the parsed dir/base/frame/ext as they are. Formatting
+					// and parsing them again could split them differently.
+					files = append(files, newFileSequence(dirName, baseName, frameStr, "", ext, padder))
 				}
 				continue
 			}
@@ -836,30 +823,9 @@ func findSequencesInList(paths []*fileItem, opts *findSeqOptions) (FileSequences
 	fseqs := make(FileSequences, 0, seqCount)
 
 	appendSeq := func() error {
-		buf.WriteString(dirName)
-		buf.WriteString(baseName)
-		buf.WriteString(frange)
-		buf.WriteString(pad)
-		buf.WriteString(ext)
-
-		fs, err := NewFileSequencePad(buf.String(), padStyle)
-		if err != nil {
-			return err
-		}
-
-		// Always use the previously parsed basename, range, and ext
-		fs.basename = baseName
-		fs.ext = ext
-		if frange == "" {
-			fs.SetFrameSet(nil)
-			fs.SetPadding("")
-		} else {
-			fs.SetFrameRange(frange)
-		}
-
-		fseqs = append(fseqs, fs)
-
-		buf.Reset()
+		// Always use the previously parsed dir, basename, range, and ext.
+		// Formatting and parsing them again could split them differently.
+		fseqs = append(fseqs, newFileSequence(dirName, baseName, frange, pad, ext, padder))
 		return nil
 	}
 
@@ -950,6 +916,26 @@ func findSequencesInList(paths []*fileItem, opts *findSeqOptions) (FileSequences
 	}
 
 	return fseqs, nil
+}
+
+// newFileSequence creates a FileSequence from components that have already
+// been parsed. A frame range without padding characters is a single frame,
+// and is padded to its own width.
+func newFileSequence(dir, basename, frange, pad, ext string, padder paddingMapper) *FileSequence {
+	fs := &FileSequence{
+		basename:  basename,
+		dir:       dir,
+		ext:       ext,
+		padMapper: padder,
+	}
+	if frange != "" {
+		if pad == "" {
+			pad = padder.PaddingChars(len(frange))
+		}
+		fs.SetFrameRange(frange)
+	}
+	fs.SetPadding(pad)
+	return fs
 }
 
 // FindSequenceOnDisk takes a string that is a compatible/parsible
